@@ -223,6 +223,7 @@ fn loco_run(r: &mut Rng, t: usize, sink: &mut Sink, made: &mut usize) {
             format!("ballast/baseline:{}", match (pre.ballast, pre.baseline) { (Some(_), Some(_)) => "both", (None, None) => "neither", _ => "one" }),
             format!("component_masses:{}", if pre.comps.iter().all(|c| c.mass.is_some()) { "all" } else if pre.comps.iter().all(|c| c.mass.is_none()) { "none" } else { "some" })];
         let pre_mass_getter = l.mass().ok().flatten().map(|q| q.value);
+        let mut opt: (&'static str, f64) = ("", 0.0);
         let (coq_cmd, what, res): (String, String, Result<anyhow::Result<()>, String>) = match r.below(9) {
             0 | 1 | 2 => {
                 let se = match r.below(6) { 0 => MassSideEffect::Extensive, 1 => MassSideEffect::Intensive, _ => MassSideEffect::None };
@@ -234,12 +235,14 @@ fn loco_run(r: &mut Rng, t: usize, sink: &mut Sink, made: &mut usize) {
                 let (se, sn) = match r.below(5) { 0 => (ForceMaxSideEffect::Mass, "FS_Mass"), 1 => (ForceMaxSideEffect::UpdateMu, "FS_UpdateMu"), 2 => (ForceMaxSideEffect::SetMuToNone, "FS_SetMuToNone"),
                     3 => (ForceMaxSideEffect::SetMassToNone, "FS_SetMassToNone"), _ => (ForceMaxSideEffect::SetMassAndMuToNone, "FS_SetMassAndMuToNone") };
                 let f = match r.below(4) { 0 => pre.force, 1 => match (pre.mu, pre.mass) { (Some(u), Some(m)) => u * m * G, _ => 5e5 }, _ => r.lrange(1e5, 1e6).floor() };
+                opt = (sn, f);
                 let res = catch(std::panic::AssertUnwindSafe(|| l.set_force_max(uc::N * f, se)));
                 (format!("(LSetForce {} {})", cf(f), sn), format!("set_force_max({})", sn), res)
             }
             _ => {
                 let (se, sn) = match r.below(3) { 0 => (MuSideEffect::Mass, "US_Mass"), 1 => (MuSideEffect::ForceMax, "US_ForceMax"), _ => (MuSideEffect::SetMassToNone, "US_SetMassToNone") };
                 let u = match r.below(4) { 0 => pre.mu.unwrap_or(0.3), 1 => pre.mass.map(|m| pre.force / (m * G)).unwrap_or(0.25), _ => r.range(0.1, 0.5) };
+                opt = (sn, u);
                 let res = catch(std::panic::AssertUnwindSafe(|| l.set_mu(uc::R * u, se)));
                 (format!("(LSetMu {} {})", cf(u), sn), format!("set_mu({})", sn), res)
             }
@@ -261,6 +264,20 @@ fn loco_run(r: &mut Rng, t: usize, sink: &mut Sink, made: &mut usize) {
             if let (Some(u), Some(m)) = (post.mu, post.mass) { if !close_rel(post.force, u * m * G) { fails.push(format!("after an accepted {} the stored force_max {} differs from mu*mass*g = {}", what, post.force, u * m * G)); } }
             if let Err(e) = &g.force { fails.push(format!("after an accepted {} force_max() fails: {}", what, e.chars().take(100).collect::<String>())); }
             if what.starts_with("set_mass") { if let Err(e) = &g.mass { fails.push(format!("after an accepted {} mass() fails: {}", what, e.chars().take(100).collect::<String>())); } }
+            // each side-effect option does exactly what it says, and nothing else
+            let (sn, arg) = opt;
+            let same = |a: Option<f64>, b: Option<f64>| a == b;
+            match sn {
+                "FS_SetMuToNone" => { if !(post.force == arg && post.mu.is_none() && same(post.mass, pre.mass)) { fails.push(format!("set_force_max(SetMuToNone): expected force={}, mu=None, mass unchanged {:?}; got force={}, mu={:?}, mass={:?}", arg, pre.mass, post.force, post.mu, post.mass)); } }
+                "FS_SetMassToNone" => { if !(post.force == arg && post.mass.is_none() && same(post.mu, pre.mu)) { fails.push(format!("set_force_max(SetMassToNone): expected force={}, mass=None, mu unchanged {:?}; got force={}, mu={:?}, mass={:?}", arg, pre.mu, post.force, post.mu, post.mass)); } }
+                "FS_SetMassAndMuToNone" => { if !(post.force == arg && post.mass.is_none() && post.mu.is_none()) { fails.push("set_force_max(SetMassAndMuToNone): mass or mu was kept".into()); } }
+                "FS_UpdateMu" => { let want = pre.mass.map(|m| arg / (m * G)); if !(post.force == arg && same(post.mass, pre.mass) && match (post.mu, want) { (Some(a), Some(b)) => close_rel(a, b), (None, None) => true, _ => false }) { fails.push(format!("set_force_max(UpdateMu): expected mu={:?}, mass unchanged; got mu={:?}, mass={:?}", want, post.mu, post.mass)); } }
+                "FS_Mass" => { if !(same(post.mu, pre.mu)) { fails.push("set_force_max(Mass): mu changed".into()); } }
+                "US_SetMassToNone" => { if !(post.mu == Some(arg) && post.mass.is_none() && post.force == pre.force) { fails.push(format!("set_mu(SetMassToNone): expected mu={}, mass=None, force unchanged; got mu={:?}, mass={:?}, force={}", arg, post.mu, post.mass, post.force)); } }
+                "US_ForceMax" => { if !(post.mu == Some(arg) && same(post.mass, pre.mass)) { fails.push("set_mu(ForceMax): mu not stored or mass changed".into()); } }
+                "US_Mass" => { if !(post.mu == Some(arg) && close_rel(post.force, pre.force)) { fails.push("set_mu(Mass): mu not stored or force_max changed".into()); } }
+                _ => {}
+            }
         }
         let _ = (&g.mu, &g.derived);
         tags.push(format!("returned:{}", if ret == 0 { "ok" } else { "err" }));
